@@ -71,7 +71,8 @@ Ideal(o) ==
                           ELSE LET r2 == RefuseSC(s1.par, o.n, o.xs, FALSE, o.strict) IN
                                [exc |-> r2, st |-> IF r2 = Ok THEN IdealSC(s1.par, s1.ch, o.n, o.xs) ELSE s1]
 
-FaultFree(o) == \A i \in 1..Len(o.log): ~o.log[i].r
+\* no hook raised during the call (a recorded log may be truncated for runs that end in RecursionError, so the outcome counts, too)
+FaultFree(o) == (\A i \in 1..Len(o.log): ~o.log[i].r) /\ o.exc \notin {"HookFault", "RecursionError"}
 
 C02_OK(o) ==
   (FaultFree(o) /\ Ideal(o).exc # "Outside") =>
